@@ -197,9 +197,21 @@ def r3_tag_relation(ctx):
     corpus = ctx.corpus
     # writers
     ev = Evaluator(corpus, modes={'encrypted': True}, depth=4)
-    w = corpus.func('repository', 'Repository._chunk_digest_to_location_parts')
-    ctx.analysed(w)
-    r = ev.run(w)
+    if corpus.has_func('repository', 'Repository._chunk_digest_to_location_parts'):
+        w = corpus.func('repository', 'Repository._chunk_digest_to_location_parts')
+        ctx.analysed(w)
+        r = ev.run(w)
+    else:
+        # the helper folded into its caller: take (name, tag) from the call of get_chunk_location
+        w = corpus.func('repository', 'Repository._chunk_digest_to_location')
+        ctx.analysed(w)
+        ev.run(w)
+        r = ('opaque', 'no get_chunk_location call')
+        for e in ev.events:
+            if e.method == 'get_chunk_location' or (e.callee[0] == 'bound' and e.callee[2].endswith('get_chunk_location')):
+                kw = dict(e.kwargs)
+                if 'name' in kw and 'tag' in kw:
+                    r = ('record', 'LocationParts', (('name', kw['name']), ('tag', kw['tag'])))
     ok = False
     if r[0] == 'record':
         f = dict(r[2])
